@@ -106,7 +106,7 @@ class FakeBleClient:
 
 
 class BleRig:
-    def __init__(self, seed=0, mtu=158, gated=False, chars=None, load=True):
+    def __init__(self, seed=0, mtu=158, gated=False, chars=None, load=True, bkey=None, gsn=None):
         from aiohomekit.characteristic_cache import CharacteristicCacheMemory
         from aiohomekit.controller.ble import pairing as ble_pairing
         from aiohomekit.controller.ble.controller import BleController
@@ -117,6 +117,8 @@ class BleRig:
         self._pin = pairdrv.pinned_keys(f"blerig|{seed}")
         self._pin.__enter__()
         self.acc = bleacc.BleAccessory(seed, chars=chars)
+        if gsn is not None:
+            self.acc.gsn = gsn
         self.clients = []
         self.links_closed = 0
         self.notify = {}
@@ -133,7 +135,7 @@ class BleRig:
         cache = CharacteristicCacheMemory()
         pd = self.acc.pairing_data()
         if load:
-            cache.async_create_or_update_map(pd["AccessoryPairingID"], self.acc.cn, bleacc.accessories_json(self.acc.chars.values()), None, self.acc.gsn)
+            cache.async_create_or_update_map(pd["AccessoryPairingID"], self.acc.cn, bleacc.accessories_json(self.acc.chars.values()), bkey.hex() if bkey else None, self.acc.gsn)
         self.controller = BleController(cache)
         self.pairing = self.controller.load_pairing("alias", pd)
         from bleak.backends.device import BLEDevice
